@@ -77,6 +77,29 @@ def run(prop, case, exception_is_violation=False):
         out['counters']['exceptions_' + case['kind']] = 1
         if exception_is_violation and case['kind'] not in ('ambig',):
             viol.append(V(f'{prop.lower()}.exception', f"{MC.describe_case(case)} raised {res['error']}"))
+    if prop == 'C02' and case['kind'] == 'multilevel':
+        # "the fragment defined under that node's name" at every level: the definitions the resolver works
+        # with must be those written in the block of that level (read independently through read_fragments)
+        import re
+        import cgsmiles
+        from cgsmiles import MoleculeResolver
+        try:
+            last_aa = not case.get('coarse_last', False)
+            r = MoleculeResolver.from_string(case['multi_string'], last_all_atom=last_aa)
+            blocks = re.findall(r"\{[^\}]+\}", case['multi_string'])[1:]
+            for lvl, blk in enumerate(blocks):
+                ref = cgsmiles.read_fragments(blk, all_atom=(lvl == len(blocks) - 1 and last_aa))
+                for name, g in ref.items():
+                    have = r.fragment_dicts[lvl].get(name)
+                    key = 'element' if (lvl == len(blocks) - 1 and last_aa) else 'atomname'
+                    sig = lambda x: (sorted((n, d.get(key), tuple(d.get('bonding') or ())) for n, d in x.nodes(data=True)),
+                                     sorted((min(a, b), max(a, b), d.get('order')) for a, b, d in x.edges(data=True)))
+                    if have is None or sig(have) != sig(g):
+                        viol.append(V('c02.definition_from_other_level', f"{case['multi_string']} :: at level {lvl} fragment {name!r} is "
+                                      f"{sig(have) if have is not None else None}, its definition in that level's block reads {sig(g)}"))
+                        break
+        except Exception:
+            pass
     if prop == 'C03' and res['steps'] and case['kind'] in ('cut', 'virtual', 'coarse_cut'):
         # these workloads write one dedicated, uniquely labelled pair per unit of base-edge order:
         # 'exactly that many' bonds must exist between the two coarse nodes
